@@ -139,5 +139,8 @@ func buildTemplates(rng *rand.Rand) (map[string][]*Template, string, error) {
 			}
 		}
 	}
+	// a zero-byte object (not Parquet, holds no rows): only the file-level oracle
+	// applies to it; it lives in its own measurement so that no query globs it
+	out["empty"] = []*Template{{Class: "empty", Size: 0, Sha: shaHex(nil), Bytes: []byte{}}}
 	return out, "", nil
 }
